@@ -1,0 +1,53 @@
+// Verification seams. Everything in this file is compiled only when
+// BLOCH_VERIF_HOOKS is defined; a normal build never sees it. With the guard on and
+// no harness attached (all pointers null, all flags false) behaviour equals production.
+
+#pragma once
+
+#ifdef BLOCH_VERIF_HOOKS
+
+namespace bloch::runtime {
+    class QasmSimulator;
+}
+
+namespace bloch::verif {
+    // H1: decides the uniform draw of a measurement. Called with the simulator (state is still
+    // the pre-measurement state), the qubit, the probability of reading 1 and the production
+    // draw; returns the draw to use (in [0,1)).
+    inline double (*draw)(const runtime::QasmSimulator* sim, const char* what, int q, double p1,
+                          double produced) = nullptr;
+    // H2: independent record of every simulator operation actually performed (after the state
+    // was mutated, before/independent of the QASM log). outcome = -1 unless measure.
+    inline void (*op)(const runtime::QasmSimulator* sim, const char* name, int a, int b,
+                      double theta, int outcome) = nullptr;
+    // H3: collection schedule. Called at every poll point with a running index; returns
+    // 1 = collect now, 0 = do not collect now, -1 = leave the request flag as it is.
+    inline int (*gcAt)(unsigned long pollIndex) = nullptr;
+    inline unsigned long pollIndex = 0;
+    // H3: do not start the wall-clock timer thread.
+    inline bool noTimer = false;
+    // H4: schedule point before an access to state shared with the timer thread.
+    inline void (*point)(const char* what, const void* addr) = nullptr;
+}  // namespace bloch::verif
+
+#define BLOCH_VERIF_POINT(w, a)                \
+    do {                                       \
+        if (::bloch::verif::point)             \
+            ::bloch::verif::point((w), (a));   \
+    } while (0)
+#define BLOCH_VERIF_OP(name, a, b, theta, outcome)                            \
+    do {                                                                      \
+        if (::bloch::verif::op)                                               \
+            ::bloch::verif::op(this, (name), (a), (b), (theta), (outcome));   \
+    } while (0)
+
+#else
+
+#define BLOCH_VERIF_POINT(w, a) \
+    do {                        \
+    } while (0)
+#define BLOCH_VERIF_OP(name, a, b, theta, outcome) \
+    do {                                           \
+    } while (0)
+
+#endif
